@@ -47,10 +47,10 @@ UNIT = {
     'parts': BASE + [
         {'kind': 'vrs', 'file': 'member/spec.vrs'},
         {'kind': 'fn', 'src': B, 'path': 'fn eval_in_list', 'key': 'member::eval_in_list', 'props': P, 'auto_props': A, 'loops': 1, 'ret': 'r',
-         'attrs': '#[verifier::exec_allows_no_decreases_clause]',
+         'decreases': 'items@',
          'sig_rewrite': [(r'^(\s*)fn ', r'\1pub fn ')], 'rewrites': [('R3',)],
          'splices': [{'id': 'nested_list', 'op': 'after', 'anchor': 'Value::List(inner) => {',
-                      'text': 'proof { assert(item->List_0 == *inner); assert(item_accepts(*left, *item) == Some(vals_accept(*left, *inner, 0) == Some(true))); }'}],
+                      'text': 'proof { assert(item->List_0 == *inner); assert(item_accepts(*left, *item) == Some(vals_accept(*left, *inner, 0) == Some(true)));\n  assert(*item == items@[it.index@ as int]); assert(decreases_to!(items@ => items@[it.index@ as int])); assert(decreases_to!(*item => item->List_0)); assert(decreases_to!(*inner => inner.0)); assert(decreases_to!(inner.0 => inner.0@)); }'}],
          'ensures': [('first_accepting_item_decides', 'forall |vs: Values| vs.0@ == items@ ==> tri_result(r, #[trigger] vals_accept(*left, vs, 0))')],
          'loop_specs': {0: {'iter_name': 'it', 'invariant': [
              ('seq', 'it.seq() =~= items@.map_values(|v: Value| &v)'),
@@ -69,6 +69,6 @@ UNIT = {
          'ensures': [('the_value_in_denotes', 'in_denotes(lhv, rhv, r)')]},
     ],
 }
-ASSUMPTIONS = CMP.ASSUMPTIONS + ['termination of eval_in_list (recursion through nested lists) is not proved (exec_allows_no_decreases_clause)']
+ASSUMPTIONS = CMP.ASSUMPTIONS
 NOT_DECIDED = {'C01': ['a list on the left is compared with the LIST items on the right only (ranges / tests among them are ignored); a nested list on the right is read as a nested disjunction when the left operand is not a list'],
                'C03': ['that an input entry is compiled to `input in (entry)` is closure wiring (unit hitpolicy / bounded hit-policy differential)']}
